@@ -246,6 +246,19 @@ class Fn:
                 nm = '%s_%s' % (base['referencedDecl']['name'], n['name'])
                 return self.free(V(nm), self.expr_kind(n), ('field', base['referencedDecl']['name'], n['name']))
             raise CTransError('%s: member expression on a non-variable' % self.name)
+        if k == 'ArraySubscriptExpr' and strip(n['inner'][0]).get('kind') not in ('DeclRefExpr', 'MemberExpr'):
+            mem, row, idx = self.target(n)
+            return '(%s %s %s)' % (V(mem), row, idx)
+        if k == 'ArraySubscriptExpr' and strip(n['inner'][0]).get('kind') == 'MemberExpr':
+            # `P->values[i]`: a read-only array field of a struct parameter -> function parameter
+            mb = strip(n['inner'][0])
+            sb = strip(mb['inner'][0])
+            if sb.get('kind') != 'DeclRefExpr':
+                raise CTransError('%s: array field of a non-parameter' % self.name)
+            fnm = '%s_%s' % (sb['referencedDecl']['name'], mb['name'])
+            ek = self.expr_kind(n)
+            self.free(V(fnm), 'p:' + ek, ('field', sb['referencedDecl']['name'], mb['name']))
+            return '(%s %s)' % (V(fnm), self.as_int(n['inner'][1]))
         if k == 'ArraySubscriptExpr':
             base, idx = n['inner']
             base = strip(base)
@@ -386,9 +399,34 @@ class Fn:
                 raise CTransError('%s: parameter origin %r' % (self.name, org))
         return out
 
+    def ptr_expr(self, n):
+        """(memory name, Lean row term, Lean offset term) of a pointer-valued expression: a pointer local, a call of
+        mzd_row / mzd_row_const, or one of these plus/minus an integer"""
+        n = strip(n)
+        while n.get('kind') in ('CStyleCastExpr', 'ImplicitCastExpr'):
+            n = strip(n['inner'][0])
+        if n.get('kind') == 'DeclRefExpr' and n['referencedDecl']['name'] in self.ptrs:
+            nm = n['referencedDecl']['name']
+            mem, row = self.ptrs[nm]
+            return mem, row, V(nm)
+        mc = self.mzd_row_call(n)
+        if mc:
+            mem = 'mem_' + mc[0]
+            if mem not in self.locals:
+                self.locals[mem] = 'm2'
+                self.free(V(mem), 'm2', ('mem', mc[0]))
+            return mem, self.value(mc[1]), '(0 : Int)'
+        if n.get('kind') == 'BinaryOperator' and n['opcode'] in ('+', '-'):
+            mem, row, off = self.ptr_expr(n['inner'][0])
+            return mem, row, '(%s %s %s)' % (off, n['opcode'], self.as_int(n['inner'][1]))
+        raise CTransError('%s: unsupported pointer expression' % self.name)
+
     def target(self, n):
         """(memory name, Lean row term, Lean index term) of the cell an lvalue `p[i]` / `*p` / `*p++` denotes"""
         n = strip(n)
+        if n.get('kind') == 'ArraySubscriptExpr' and not (strip(n['inner'][0]).get('kind') == 'DeclRefExpr'):
+            mem, row, off = self.ptr_expr(n['inner'][0])
+            return mem, row, '(%s + %s)' % (off, self.as_int(n['inner'][1]))
         if n.get('kind') == 'ArraySubscriptExpr':
             base, idx = n['inner']
             base = strip(base)
@@ -865,6 +903,8 @@ class Fn:
             start = V(q)
         else:
             raise CTransError('%s: pointer %s initialised from an unsupported expression' % (self.name, nm))
+        if off and off[0] == '-' and False:
+            pass
         if off:
             start = '(%s %s %s)' % (start, off[0], self.as_int(off[1]))
         self.ptrs[nm] = (mem, rowv)
@@ -899,6 +939,8 @@ class Fn:
             k = n.get('kind')
             if k == 'CaseStmt':
                 v = strip(n['inner'][0])
+                while v.get('kind') in ('ImplicitCastExpr', 'CStyleCastExpr'):
+                    v = strip(v['inner'][0])
                 if v.get('kind') != 'IntegerLiteral':
                     raise CTransError('%s: non-literal case label' % self.name)
                 flat(n['inner'][-1], labels + [int(v['value'])])
@@ -906,6 +948,9 @@ class Fn:
                 flat(n['inner'][-1], labels + ['default'])
             else:
                 items.append((labels, n))
+        kids = [c for c in body.get('inner', []) if isinstance(c, dict)]
+        if len(kids) == 1 and kids[0].get('kind') == 'CaseStmt' and kids[0]['inner'][-1].get('kind') == 'DoStmt':
+            return self.duff(sel, kids[0], rest, k_final, ind)
         for c in body.get('inner', []):
             flat(c, [])
         # a `break` ends a fall-through segment: statement p runs iff the matching label's position is <= p and lies
@@ -945,6 +990,59 @@ class Fn:
             if sf > 0:
                 cond = '(%s && decide ((%d : Int) ≤ sw_pos))' % (cond, sf)
             out += '%slet %s : %s := if %s then %s else %s\n' % (pad, V(nm), self.ltype(nm), cond, e, V(nm))
+        return out + self.seq(rest, k_final, ind)
+
+    def guarded(self, cond, stmts, ind):
+        """`if cond then stmts` as a re-binding of the variables `stmts` assign"""
+        pad = '  ' * ind
+        outs = [x for x in self.assigned(stmts) if x in self.locals]
+        if not outs:
+            return ''
+        t = self.tup(outs)
+        return '%slet %s : %s :=\n%s  if %s then\n%s\n%s  else\n%s    %s\n' % (
+            pad, t, self.tup_type(outs), pad, cond, self.seq(stmts, lambda: t, ind + 2), pad, pad, t)
+
+    def duff(self, sel, case0, rest, k_final, ind):
+        """Duff's device `switch (e) { case L0: do { S0; case L1: S1; ... } while (c); }`: the first pass runs the
+        statements from the matching label on, then `while (c)` runs complete passes; no label matches -> nothing runs"""
+        pad = '  ' * ind
+        do = case0['inner'][-1]
+        dobody, docond = do['inner'][0], do['inner'][1]
+        items = []       # (labels, statement)
+
+        def lab(n):
+            v = strip(n['inner'][0])
+            while v.get('kind') in ('ImplicitCastExpr', 'CStyleCastExpr'):
+                v = strip(v['inner'][0])
+            if v.get('kind') != 'IntegerLiteral':
+                raise CTransError('%s: non-literal case label' % self.name)
+            return int(v['value'])
+
+        def flat(n, labels):
+            if n.get('kind') == 'CaseStmt':
+                flat(n['inner'][-1], labels + [lab(n)])
+            elif n.get('kind') == 'DefaultStmt':
+                raise CTransError('%s: default label inside a Duff device' % self.name)
+            else:
+                items.append((labels, n))
+        first = True
+        for c in self.body_list(dobody):
+            flat(c, [lab(case0)] if first else [])
+            first = False
+        stmts = [st for _, st in items]
+        if self.has(stmts, ('BreakStmt', 'ContinueStmt', 'ReturnStmt', 'GotoStmt', 'CaseStmt')):
+            raise CTransError('%s: control transfer inside a Duff device' % self.name)
+        npos = len(items)
+        chain = '(%d : Int)' % npos
+        for p_, (labels, st) in reversed(list(enumerate(items))):
+            for l in labels:
+                chain = '(if sw_sel = (%d : Int) then (%d : Int) else %s)' % (l, p_, chain)
+        out = '%slet sw_sel : Int := %s\n%slet sw_pos : Int := %s\n' % (pad, sel, pad, chain)
+        for p_, (labels, st) in enumerate(items):
+            out += self.guarded('decide (sw_pos ≤ (%d : Int))' % p_, [st], ind)
+        # the remaining complete passes: `while (c) { S0 .. Sn }`, only if a label matched
+        loop = dict(kind='WhileStmt', inner=[docond, dict(kind='CompoundStmt', inner=stmts)])
+        out += self.guarded('decide (sw_pos < (%d : Int))' % npos, [loop], ind)
         return out + self.seq(rest, k_final, ind)
 
     def ret(self, n):
@@ -1143,6 +1241,14 @@ def catalogue(t):
     F('m4ri/mzd.c', 'mzd_equal', 'mzdEqual', fuels=['(v_A_nrows).toNat', '(v_A_width).toNat'])
     F('m4ri/mzd.c', 'mzd_cmp', 'mzdCmp', fuels=['(v_A_nrows).toNat', '(v_A_width).toNat'])
     F('m4ri/mzd.c', 'mzd_first_zero_row', 'mzdFirstZeroRow', fuels=['(v_A_nrows).toNat', '(v_A_width).toNat'])
+    F('m4ri/mzd.c', 'mzd_combine_even_in_place', 'mzdCombineEvenInPlace', nosse=True, fuels=['(v_A_width).toNat'],
+      doc='scalar path: Duff device')
+    F('m4ri/mzd.c', 'mzd_combine_even', 'mzdCombineEven', nosse=True, fuels=['(v_A_width).toNat'], doc='scalar path: Duff device')
+    F('m4ri/mzd.c', 'mzd_read_bits_int', 'mzdReadBitsInt')
+    PR = ['(v_stoprow).toNat + 1'] + ['(v_M_width).toNat'] * 3 + ['(v_stoprow).toNat + 1', '(v_M_width).toNat'] + \
+         ['(v_stoprow).toNat + 1', '(v_M_width).toNat', '(v_stoprow).toNat + 1', '(v_M_width).toNat']
+    F('m4ri/brilliantrussian.c', 'mzd_process_rows', 'mzdProcessRows', nosse=True, fuels=PR,
+      doc='Four-Russians row update with ONE table: k = 1 fast path on row pairs, general path, Duff devices')
     F('m4ri/mzd.c', 'mzd_row_swap', 'mzdRowSwap0')
     F('m4ri/mzd.c', 'mzd_row_add', 'mzdRowAdd', nosse=True)
     F('m4ri/mzd.c', 'mzd_gauss_delayed', 'mzdGaussDelayed', nosse=True,
